@@ -1,20 +1,31 @@
 import HydroVerif.Proto
 import HydroVerif.Model.C12
+import HydroVerif.Model.C12T
 open HydroVerif HydroVerif.C12
 
 /-! line protocol of the C12 model driver (α = Float, EPS = 1e-10)
 
 request  `V <spec> <op>*`                         vector state machine
-         `T <kind> <pspec> <cspec> <bspec|-> <top>*`   transform (params, constants, inner BoxCox2 params)
+         `T <kind> <pspec> <cspec> <bspec|-> <top>*`   transform (params, constants, inner BoxCox2 params) from given specs
+         `C <Class> <mininu|-> <minilam|-> <top>*`     transform built by the MODEL's class table (`cinit`)
+         `G <name> <key=x;key=x|-> <top>*`             `get_transform(name, **kw)` (`getTransform`)
+         `M <mop>*`  mop = `new:kind:pspec:cspec:bspec|-` | `newc:Class:mininu|-:minilam|-` | `i.top`   several instances
          `eps`                                     the EPS constant as hex
 spec     `names/defaults/mins/maxs/cb/ch/an`       lists `[..]` or `-` (argument not given), flags 0/1
 op       `sa:k:name:x` `sk:k:name:x` `sv:k:[xs]` `rs:k` `cl:k` `dr:k` `gk:k:name` `ga:k:name` `rd:k` `sb:k` `pc:k:0|1`
-top      `fw` `bw` `jc` `sm` `lp` `pr` `ti:name:x` `ta:name:x` `tr` `pv:[xs]` `cv:[xs]`
-reply    observation after construction and after every op, joined by ` | `
+top      `fw` `bw` `jc` `sm` `lp` `pr` `ti:name:x` `ta:name:x` `tr` `pv:[xs]` `cv:[xs]` `tgi:name` `tga:name`
+reply    observation after construction and after every op, joined by ` | `; an observation is
+         `out kind G<region> R:<value read> F<frozen bits> E<0|1> <view> <dict> <ok>... A[alias classes]`
+         (F: one bit per vector alive before the op — names / bounds / defaults / flags unchanged by it;
+          E: `EpsOk` holds at Float on every bound of every live vector: b - EPS <= b <= b + EPS)
 -/
 
 abbrev X := XR Float
 def epsF : Float := 1e-10
+/-- the literals of transform.py -/
+def kF : TConsts Float :=
+  { eps := 1e-10, em5 := 1e-5, tenth := 0.1, zero := 0.0, one := 1.0, three := 3.0, five := 5.0, ten := 10.0,
+    n1 := -1.0, n3 := -3.0, n5 := -5.0, n10 := -10.0, n20 := -20.0 }
 
 def xOfFloat (f : Float) : X :=
   if f.isNaN then .nan else if f.isInf then (if f < 0 then .ninf else .pinf) else .fin f
@@ -38,6 +49,7 @@ def errName : Err → String
   | .nanValue => "nanValue" | .maxsOutside => "maxsOutside" | .defaultsOutside => "defaultsOutside"
   | .unknownKey => "unknownKey" | .index => "index"
   | .noAttr => "noAttr" | .notNumber => "notNumber" | .copyProtocol => "copyProtocol"
+  | .ctorGuard => "ctorGuard" | .unknownClass => "unknownClass"
 
 def fmtOut : Out → String
   | .ok => "ok -"
@@ -64,12 +76,28 @@ def aliasClasses (w : World Float) : List Nat :=
   let refs := w.vecs.flatMap Vec.refs
   refs.map fun r => (refs.findIdx? (· == r)).getD 0
 
-/-- reply tokens: out, kind, G + region flag of the op (1, 0 or dash), R: + value read by the op (or dash), the vectors, A + alias classes -/
-def observe (w : World Float) (o : Out) (g : String := "-") (r : String := "-") : String :=
+def fmtFrozen (f : Option (Frozen Float)) : String :=
+  match f with
+  | none => "-"
+  | some f => ":".intercalate [fmtList f.names, fmtXs f.mins, fmtXs f.maxs, fmtXs f.defaults, b01 f.checkBounds,
+      b01 f.checkHit, b01 f.acceptNan]
+
+/-- one bit per vector of the world BEFORE the operation: `World.frozen` unchanged (bit patterns compared) -/
+def frozenBits (prev : Option (World Float)) (w : World Float) : String :=
+  match prev with
+  | none => "-"
+  | some p => String.join ((List.range p.vecs.length).map fun j => b01 (fmtFrozen (w.frozen j) == fmtFrozen (p.frozen j)))
+
+/-- reply tokens: out, kind, G + region flag of the op (1, 0 or dash), R: + value read by the op (or dash), F + frozen
+bits, the vectors, A + alias classes -/
+def observe (w : World Float) (o : Out) (g : String := "-") (r : String := "-") (prev : Option (World Float) := none) :
+    String :=
   let vs := w.vecs.map fun v =>
     let vw := view w.store v
     fmtView vw ++ " " ++ fmtDict (toDict w.store v) ++ " " ++ b01 vw.ok
-  " ".intercalate ([fmtOut o, "G" ++ g, "R:" ++ r] ++ vs ++ ["A" ++ fmtNatList (aliasClasses w)])
+  let e := w.vecs.all fun v => (view w.store v).epsOk epsF
+  " ".intercalate ([fmtOut o, "G" ++ g, "R:" ++ r, "F" ++ frozenBits prev w, "E" ++ b01 e] ++ vs
+    ++ ["A" ++ fmtNatList (aliasClasses w)])
 
 /-- the model's evaluation of the theorems' conditioning for a whole-vector assignment -/
 def regionFlag (w : World Float) : Op Float → String
@@ -112,7 +140,27 @@ def top? (s : String) : Option (TOp Float) :=
   | ["ta", nm, x] => (xTok? x).map (.setAttr nm)
   | ["pv", xs] => (xList? xs).map .setParams
   | ["cv", xs] => (xList? xs).map .setConstants
+  | ["tgi", nm] => some (.getItem nm)
+  | ["tga", nm] => some (.getAttr nm)
   | _ => none
+
+def treadFlag (w : World Float) (t : Trans) : TOp Float → Out → String
+  | .getItem nm, .ok | .getAttr nm, .ok => match treadItem w t nm with
+    | some x => fmtX x
+    | none => "-"
+  | _, _ => "-"
+
+def class? (s : String) : Option TClass := TClass.ofName? s
+def argTok? (dflt : X) (s : String) : Option X := if s = "-" then some dflt else xTok? s
+def cargs? (mn ml : String) : Option (CArgs Float) :=
+  match argTok? (CArgs.default kF).mininu mn, argTok? (CArgs.default kF).minilam ml with
+  | some a, some b => some ⟨a, b⟩
+  | _, _ => none
+def kw? (s : String) : Option (List (String × X)) :=
+  if s = "-" then some [] else
+    allSome ((s.splitOn ";").map fun kv => match kv.splitOn "=" with
+      | [k, x] => (xTok? x).map fun x => (k, x)
+      | _ => none)
 
 def kind? : String → Option TKind
   | "plain" => some .plain | "bc1lam" => some .bc1lam | "bc1nu" => some .bc1nu | "bc2sym" => some .bc2sym
@@ -123,14 +171,14 @@ def runV (w : World Float) (ops : List (Op Float)) : List String :=
   | [] => []
   | op :: rest =>
     let (w', o) := step epsF w op
-    observe w' o (regionFlag w op) (readFlag w op) :: runV w' rest
+    observe w' o (regionFlag w op) (readFlag w op) (some w) :: runV w' rest
 
 def runT (w : World Float) (t : Trans) (ops : List (TOp Float)) : List String :=
   match ops with
   | [] => []
   | op :: rest =>
     let (w', o) := tstep epsF w t op
-    observe w' o :: runT w' t rest
+    observe w' o "-" (treadFlag w t op o) (some w) :: runT w' t rest
 
 /-- several transform instances in one world: `new:kind:pspec:cspec:bspec|-` constructs one, `i.top` operates on the
 i-th; one observation (all vectors of all instances) per op -/
@@ -146,15 +194,24 @@ def runM (m : MWorld Float) (ops : List String) : List String :=
         match b with
         | none => ["bad-op"]
         | some b => match madd epsF m kd ps cs b with
-          | .error e => (observe m.world (.rejected e)) :: runM m rest
-          | .ok m' => observe m'.world .ok :: runM m' rest
+          | .error e => (observe m.world (.rejected e) "-" "-" (some m.world)) :: runM m rest
+          | .ok m' => observe m'.world .ok "-" "-" (some m.world) :: runM m' rest
       | _, _, _ => ["bad-op"]
+    | ["newc", cl, mn, ml] =>
+      match class? cl, cargs? mn ml with
+      | some cl, some a =>
+        let (m', out) := mstepC epsF kF m (.new cl a)
+        observe m'.world out "-" "-" (some m.world) :: runM m' rest
+      | _, _ => ["bad-op"]
     | _ =>
       match o.splitOn "." with
       | [i, t] => match i.toNat?, top? t with
         | some i, some op =>
-          let (m', out) := mstep epsF m i op
-          observe m'.world out :: runM m' rest
+          let (m', out) := mstepC epsF kF m (.at i op)
+          let r := match m.insts[i]? with
+            | some tr => treadFlag m.world tr op out
+            | none => "-"
+          observe m'.world out "-" r (some m.world) :: runM m' rest
         | _, _ => ["bad-op"]
       | _ => ["bad-op"]
 
@@ -183,6 +240,20 @@ def handle (toks : List String) : String :=
         let t : Trans := ⟨kd, 0, 1, 2⟩
         " | ".intercalate (observe w .ok :: runT w t ops)
     | _, _, _, _ => "bad-op"
+  | "C" :: cl :: mn :: ml :: ops =>
+    match class? cl, cargs? mn ml, allSome (ops.map top?) with
+    | some cl, some a, some ops =>
+      match cinit epsF kF cl a with
+      | .error e => "rej " ++ errName e
+      | .ok w => " | ".intercalate (observe w .ok :: runT w cl.trans ops)
+    | _, _, _ => "bad-op"
+  | "G" :: nm :: kw :: ops =>
+    match kw? kw, allSome (ops.map top?) with
+    | some kw, some ops =>
+      match getTransform epsF kF nm kw with
+      | .error e => "rej " ++ errName e
+      | .ok (cl, w) => " | ".intercalate (observe w .ok :: runT w cl.trans ops)
+    | _, _ => "bad-op"
   | _ => "bad-op"
 
 def main : IO Unit := serve handle
